@@ -3,4 +3,5 @@ import Driver.OpsTime
 import Driver.OpsBattery
 import Driver.OpsFail
 import Driver.OpsAcct
+import Driver.OpsProf
 import Driver.Main
